@@ -100,6 +100,8 @@ type Enc struct {
 	nbase    int
 	carrs    map[string]string
 	lateFacts []string
+	absFloat bool
+	flits    []string
 }
 
 type structInfo struct {
@@ -113,7 +115,7 @@ type structInfo struct {
 func newEnc(P *Program) *Enc {
 	e := &Enc{P: P, declared: map[string]bool{}, structs: map[string]*structInfo{}, heapSort: map[string]string{},
 		strLits: map[string]Term{}, ifaceTags: map[string]int{}, notes: map[string]bool{}, fnIds: map[string]Term{}, globals: map[string]Term{}}
-	e.decl("sort:F64", "(define-sort F64 () (_ FloatingPoint 11 53))")
+	e.decls = append(e.decls, "(define-sort F64 () (_ FloatingPoint 11 53))") // replaced in abstract-float mode (setAbsFloat)
 	e.decl("sort:Str", "(declare-sort Str 0)")
 	e.decl("sort:Iface", "(declare-sort Iface 0)")
 	e.decl("sort:Slice", "(declare-datatypes ((Slice 0)) (((mk_slice (s_arr Int) (s_off Int) (s_len Int) (s_cap Int)))))")
@@ -276,7 +278,7 @@ func (e *Enc) zero(t types.Type) Term {
 		case u.Info()&types.IsInteger != 0:
 			return "0"
 		case u.Info()&types.IsFloat != 0:
-			return "(_ +zero 11 53)"
+			return e.f64Lit(0)
 		case u.Info()&types.IsString != 0:
 			return e.strLit("")
 		}
@@ -305,7 +307,7 @@ func (e *Enc) zero(t types.Type) Term {
 // terms, so for elements mentioning uninterpreted constants a named array with a
 // defining axiom is used instead.
 func (e *Enc) constArray(ixSort, elSort string, v Term) Term {
-	if !strings.Contains(v, "iface_nil") && !strings.Contains(v, "str!") {
+	if !strings.Contains(v, "iface_nil") && !strings.Contains(v, "str!") && !strings.Contains(v, "f_lit_") {
 		return fmt.Sprintf("((as const (Array %s %s)) %s)", ixSort, elSort, v)
 	}
 	key := "carr:" + ixSort + ":" + elSort + ":" + v
@@ -360,6 +362,53 @@ func (e *Enc) strAxioms() []string {
 	return out
 }
 
+// setAbsFloat switches to abstract floats: F64 is an uninterpreted sort and the IEEE
+// operations are uninterpreted functions (only congruence is available). Used for
+// functions that merely move floats around; functions whose correctness depends on
+// IEEE semantics (kernels, Compare, lemmas) keep real FloatingPoint.
+func (e *Enc) setAbsFloat() {
+	e.absFloat = true
+	e.decls[0] = "(declare-sort F64 0)"
+	e.note("abstract floats in this function: F64 uninterpreted, IEEE operations uninterpreted (congruence only)")
+}
+
+func (e *Enc) fop(op string, args ...Term) Term {
+	if !e.absFloat {
+		switch op {
+		case "fp.add", "fp.sub", "fp.mul", "fp.div":
+			return app(op, append([]Term{"RNE"}, args...)...)
+		}
+		return app(op, args...)
+	}
+	name := "f_" + strings.TrimPrefix(op, "fp.")
+	ret := "F64"
+	switch op {
+	case "fp.lt", "fp.leq", "fp.gt", "fp.geq", "fp.eq", "fp.isNaN":
+		ret = "Bool"
+	}
+	var as []string
+	for range args {
+		as = append(as, "F64")
+	}
+	e.decl("fn:"+name, fmt.Sprintf("(declare-fun %s (%s) %s)", name, strings.Join(as, " "), ret))
+	return app(name, args...)
+}
+
+func (e *Enc) f64Lit(f float64) Term {
+	if !e.absFloat {
+		return f64Lit(f)
+	}
+	name := fmt.Sprintf("f_lit_%016x", math.Float64bits(f))
+	if math.IsNaN(f) {
+		name = "f_lit_nan"
+	}
+	if !e.declared["const:"+name] {
+		e.decl("const:"+name, fmt.Sprintf("(declare-const %s F64)", name))
+		e.flits = append(e.flits, name)
+	}
+	return name
+}
+
 func f64Lit(f float64) Term {
 	switch {
 	case math.IsNaN(f):
@@ -394,7 +443,7 @@ func (e *Enc) constTerm(v constant.Value, t types.Type) Term {
 			}
 		case u.Info()&types.IsFloat != 0:
 			f, _ := constant.Float64Val(constant.ToFloat(v))
-			return f64Lit(f)
+			return e.f64Lit(f)
 		case u.Info()&types.IsString != 0:
 			return e.strLit(constant.StringVal(v))
 		}
@@ -427,11 +476,47 @@ func (e *Enc) boxFns(t types.Type) (box, unbox string, tag int) {
 		e.decls = append(e.decls,
 			fmt.Sprintf("(declare-fun %s (%s) Iface) ; %s", box, s, types.TypeString(t, nil)),
 			fmt.Sprintf("(declare-fun %s (Iface) %s)", unbox, s))
+		// every array / object inside a boxed value has an id bounded by iface_maxid of the box
+		// (so that "this interface value predates allocation point A" carries over to its payload)
+		var ids []Term
+		e.refIds("x", t, &ids, 0)
+		if len(ids) > 0 {
+			e.decl("fn:iface_maxid", "(declare-fun iface_maxid (Iface) Int)")
+			var cs []Term
+			for _, id := range ids {
+				cs = append(cs, app("<=", id, app("iface_maxid", app(box, "x"))))
+			}
+			e.axioms = append(e.axioms, fmt.Sprintf("(assert (forall ((x %s)) (! %s :pattern ((%s x)))))", s, and(cs...), box))
+		}
 		e.axioms = append(e.axioms,
 			fmt.Sprintf("(assert (forall ((x %s)) (! (and (= (%s (%s x)) x) (= (iface_tag (%s x)) %d)) :pattern ((%s x)))))", s, unbox, box, box, tag, box),
 			fmt.Sprintf("(assert (forall ((i Iface)) (! (=> (= (iface_tag i) %d) (= (%s (%s i)) i)) :pattern ((%s i)))))", tag, box, unbox, unbox))
 	}
 	return
+}
+
+// refIds collects the ids of the arrays / objects a value refers to directly.
+func (e *Enc) refIds(t Term, ty types.Type, out *[]Term, depth int) {
+	if depth > 3 {
+		return
+	}
+	switch u := ty.Underlying().(type) {
+	case *types.Slice:
+		*out = append(*out, app("s_arr", t))
+	case *types.Pointer, *types.Map:
+		*out = append(*out, t)
+	case *types.Interface:
+		e.decl("fn:iface_maxid", "(declare-fun iface_maxid (Iface) Int)")
+		*out = append(*out, app("iface_maxid", t))
+	case *types.Struct:
+		if u.NumFields() == 0 {
+			return
+		}
+		si := e.structOf(ty)
+		for i, ft := range si.ftypes {
+			e.refIds(app(si.fields[i], t), ft, out, depth+1)
+		}
+	}
 }
 
 // ---------- heaps ----------
